@@ -376,6 +376,8 @@ class ExtModel:
         if handler is not None:
             return handler(interp, st, recv, args, kwargs, node)
         short = name.split(".")[-1]
+        if short == "cancel" and recv is not None and not args:
+            st.add_fact(("cancelled", recv.key()))
         # pure methods of a constant string with constant arguments: folded
         if isinstance(recv, Const) and isinstance(recv.value, str) and not kwargs and short in PURE_STR_METHODS and all(isinstance(a, Const) and isinstance(a.value, (str, int, tuple, type(None))) for a in args):
             try:
@@ -659,6 +661,13 @@ class ExtModel:
         if ("notin", k.key(), recv.key()) in st.facts:
             return [("val", st, default)]
         nullable = isinstance(default, Const) and default.value is None
+        if nullable and isinstance(vt, tuple) and vt[0] == "cls" and vt[1] == "sensor:Sensor":
+            # the node map: `sensors.get(k)` is `sensors[k]` for a known node and None otherwise; forking here
+            # gives both outcomes the same keys and facts as the `k in sensors` / `sensors[k]` idiom
+            s_in, s_out = st.copy(), st
+            s_in.add_fact(("in", k.key(), recv.key()), ("truthy", recv.key()))
+            s_out.add_fact(("notin", k.key(), recv.key()))
+            return [("val", s_in, Sym(("item", recv.key(), k.key()), vt)), ("val", s_out, default)]
         return [("val", st, Sym(("get", recv.key(), k.key()), vt, nullable=nullable))]
 
     def g_pop(self, interp, st, recv, args, kwargs, node):
@@ -899,6 +908,8 @@ class ExtModel:
 
     def m_asyncio_Task_cancel(self, interp, st, recv, args, kwargs, node):
         interp.emit(st, "call", "asyncio.Task.cancel", node, recv=recv, with_facts=True)
+        if recv is not None:
+            st.add_fact(("cancelled", recv.key()))
         return [("val", st, Const(True))]
 
     def m_asyncio_Task_cancelled(self, interp, st, recv, args, kwargs, node):
